@@ -48,16 +48,88 @@ class C04(CtxCheck):
     def units(self, tier: str, seed: int) -> list:
         from .c04race import race_units
 
-        return super().units(tier, seed) + race_units(tier)
+        return super().units(tier, seed) + race_units(tier) + [{"dispatch_raises": api} for api in ("nowait", "async", "inject")]
 
     def work(self, unit: dict, tier: str) -> dict:
+        if "dispatch_raises" in unit:
+            return self.dispatch_raises_unit(unit)
         if "race" in unit:
             from .c04race import RACE
 
             return RACE.work(unit, tier)
         return super().work(unit, tier)
 
+    def dispatch_raises_unit(self, unit: dict) -> dict:
+        """The announcement of a first generation fails (a subscriber's queue is full and SignalQueueFull is escalated to an error):
+        whatever the first lookup does, the factory still runs once for the context and later lookups return that product."""
+        import warnings
+
+        import anyio
+
+        from ..explore import Chooser, new_summary, reset_determinism, run_main_asyncio
+        from ..vloop import Env
+
+        env = Env(Chooser([]), 0)
+        reset_determinism(0)
+        out: dict = {"calls": 0, "results": []}
+
+        async def main() -> None:
+            from asphalt.core import Context, SignalQueueFull, inject, resource
+
+            class T:
+                pass
+
+            def factory() -> Any:
+                out["calls"] += 1
+                return T()
+
+            @inject
+            async def inj(r: T = resource()) -> Any:
+                return r
+
+            async def lookup(ctx: Any) -> Any:
+                try:
+                    if unit["dispatch_raises"] == "nowait":
+                        return ctx.get_resource_nowait(T)
+                    if unit["dispatch_raises"] == "async":
+                        return await ctx.get_resource(T)
+                    return await inj()
+                except Warning as e:
+                    return e
+
+            async with Context() as ctx:
+                ctx.add_resource_factory(factory, types=T)
+                async with ctx.resource_added.stream_events(max_queue_size=1):
+                    ctx.add_resource(1, "filler")  # fills the subscriber's only slot
+                    with warnings.catch_warnings():
+                        warnings.simplefilter("error", SignalQueueFull)
+                        out["results"].append(await lookup(ctx))
+                    out["results"].append(await lookup(ctx))
+                    out["results"].append(await lookup(ctx))
+
+        run_main_asyncio(env, main)
+        s = new_summary()
+        s["evaluations"] = s["transitions"] = s["states"] = s["distinct"] = s["nontrivial"] = 1
+        s["outcomes"] = {"done": 1}
+        objs = [r for r in out["results"] if not isinstance(r, Warning)]
+        fails = []
+        if out["calls"] != 1:
+            fails.append(["factory", f"the factory ran {out['calls']} times for one context although only the announcement of the first generation failed"])
+        if len({id(o) for o in objs}) > 1:
+            fails.append(["factory", "later lookups returned different objects"])
+        if fails:
+            s["violations"].append({"keys": ["factory"], "fails": fails, "program": dict(unit), "choices": [], "trace": [], "outcome": "done"})
+            s["keyhist"] = {"factory": 1}
+        return s
+
     def replay(self, rec: dict) -> Any:
+        if "dispatch_raises" in rec.get("program", {}):
+            s = self.dispatch_raises_unit(rec["program"])
+            for v in s["violations"]:
+                for f in v["fails"]:
+                    print("FAIL", f[0], "-", f[1])
+            print(f"VIOLATION property=C04 replay={rec.get('_path', '')}" if s["violations"] else "no violation on this tree")
+            return 1 if s["violations"] else 0
         if "race" in rec.get("program", {}):
             from .c04race import RACE
 
